@@ -38,6 +38,8 @@ type FamilyOpts struct {
 	// After is called with every group and its observations (for cross-run checks).
 	After      func(g *Group, obs []Observed) (kind string, detail string)
 	Invariants []string
+	// OrderModes: the whole family is replayed once per mode (see order.go); empty = natural only.
+	OrderModes []string
 	// Slices > 1 runs that many TLC processes in parallel, each on one slice of the family
 	// (the cfg text must contain the placeholders %SLICE% and %SLICES%).
 	Slices int
@@ -171,56 +173,67 @@ func ReplayFamily(run *vf.Run, fo FamilyOpts) int {
 	}
 	var mu sync.Mutex
 	var fails []failure
-	var wg sync.WaitGroup
-	sem := make(chan struct{}, runtime.NumCPU())
-	for idx, k := range keys {
-		g := groups[k]
-		wg.Add(1)
-		sem <- struct{}{}
-		go func(idx int, g *Group) {
-			defer wg.Done()
-			defer func() { <-sem }()
-			var all []Observed
-			for ri := 0; ri < runs; ri++ {
-				var ro RunOpts
-				if fo.RunOptsFor != nil {
-					ro = fo.RunOptsFor(g, ri)
+	modes := fo.OrderModes
+	if len(modes) == 0 {
+		modes = []string{"natural"}
+	}
+	for mi, mode := range modes {
+		SetOrderMode(mode, run.Seed)
+		var wg sync.WaitGroup
+		sem := make(chan struct{}, runtime.NumCPU())
+		for idx, k := range keys {
+			g := groups[k]
+			wg.Add(1)
+			sem <- struct{}{}
+			go func(idx int, g *Group) {
+				defer wg.Done()
+				defer func() { <-sem }()
+				var all []Observed
+				for ri := 0; ri < runs; ri++ {
+					var ro RunOpts
+					if fo.RunOptsFor != nil {
+						ro = fo.RunOptsFor(g, ri)
+					}
+					obs := Run(&g.Scen, ro)
+					all = append(all, obs)
+					kind, detail := classify(g, &obs, fo)
+					if kind != "" {
+						mu.Lock()
+						fails = append(fails, failure{kind: kind, detail: detail + " [iteration order mode: " + mode + "]", g: g, obs: obs, feats: g.Scen.Features(), size: len(g.Text) + 40*len(g.Scen.Req)})
+						mu.Unlock()
+						break
+					}
 				}
-				obs := Run(&g.Scen, ro)
-				all = append(all, obs)
-				kind, detail := classify(g, &obs, fo)
-				if kind != "" {
-					mu.Lock()
-					fails = append(fails, failure{kind: kind, detail: detail, g: g, obs: obs, feats: g.Scen.Features(), size: len(g.Text) + 40*len(g.Scen.Req)})
-					mu.Unlock()
+				if fo.After != nil {
+					if kind, detail := fo.After(g, all); kind != "" {
+						mu.Lock()
+						fails = append(fails, failure{kind: kind, detail: detail, g: g, obs: all[0], feats: g.Scen.Features(), size: len(g.Text) + 40*len(g.Scen.Req)})
+						mu.Unlock()
+					}
+				}
+				if mi > 0 {
+					return
+				}
+				nt := ""
+				for _, o := range g.Allowed {
+					if len(o.Fired) > 0 {
+						nt = fo.Name + "\x00" + g.Text + fmt.Sprint(g.Scen.Req)
+					}
 					break
 				}
-			}
-			if fo.After != nil {
-				if kind, detail := fo.After(g, all); kind != "" {
-					mu.Lock()
-					fails = append(fails, failure{kind: kind, detail: detail, g: g, obs: all[0], feats: g.Scen.Features(), size: len(g.Text) + 40*len(g.Scen.Req)})
-					mu.Unlock()
+				run.Eval(nt)
+				if idx%997 == 0 {
+					var exp []Outcome
+					for _, o := range g.Allowed {
+						exp = append(exp, o)
+					}
+					run.Sample(map[string]any{"family": fo.Name, "directives": g.Text, "request": g.Scen.Req, "spec_allows": exp, "observed": all[0].Out})
 				}
-			}
-			nt := ""
-			for _, o := range g.Allowed {
-				if len(o.Fired) > 0 {
-					nt = fo.Name + "\x00" + g.Text + fmt.Sprint(g.Scen.Req)
-				}
-				break
-			}
-			run.Eval(nt)
-			if idx%997 == 0 {
-				var exp []Outcome
-				for _, o := range g.Allowed {
-					exp = append(exp, o)
-				}
-				run.Sample(map[string]any{"family": fo.Name, "directives": g.Text, "request": g.Scen.Req, "spec_allows": exp, "observed": all[0].Out})
-			}
-		}(idx, g)
+			}(idx, g)
+		}
+		wg.Wait()
 	}
-	wg.Wait()
+	SetOrderMode("natural", 0)
 	reportFailures(run, fo.Name, fails)
 	return len(keys)
 }
